@@ -230,6 +230,9 @@ def _fn(name, args):
             raise ValueError("Bessel function outside the integer-order/real-argument domain")
         if name == "bessel_y" and x <= 0:
             raise ValueError("Y_n of a non-positive argument")
+        if abs(x) > 1e6:
+            # jn/yn of huge arguments are ill-conditioned; libm/cephes results differ from the exact value in the leading digits
+            raise ValueError("Bessel function of a huge argument: no reproducible reference value")
         return float((mpmath.besselj if name == "bessel_j" else mpmath.bessely)(int(n), mpmath.mpf(float(x))))
     if name == "real":
         return a.real if c else a
